@@ -1,4 +1,5 @@
 """Rule framework: obligations, instances, findings, evidence."""
+import os
 import re
 from .an import show
 from .pg import PG, show_lit
@@ -201,7 +202,12 @@ class Cx:
             self.cur = ob["name"]
             n0 = len(self.insts)
             try:
-                ob["fn"](self)
+                with _time_limit(int(os.environ.get("RAFTLINT_OBLIGATION_SECONDS", "240"))):
+                    ob["fn"](self)
+            except _TimeUp:
+                # a product graph or a path enumeration that does not finish: undecided, reported (never a hang)
+                self.insts.append(Inst(self.cur, "unrecognised-shape", False,
+                                       "the analysis of this obligation's sites did not finish within its time limit; the obligation is undecided and reported"))
             except AnchorMissing as e:
                 self.insts.append(Inst(self.cur, "anchor-missing:%s" % e, False,
                                        "anchor-missing: %s no longer exists; the rule table must be re-read" % e))
@@ -219,6 +225,35 @@ class Cx:
                                        "only %d conforming instance(s) found, floor is %d: the rule no longer matches the sites the protocol cannot work without" % (nok, ob["floor"])))
             results[ob["name"]] = self.insts[n0:]
         return results
+
+
+class _TimeUp(BaseException):
+    pass
+
+
+class _time_limit:
+    """SIGALRM-based wall-clock limit for one obligation (main thread only; no-op elsewhere)"""
+
+    def __init__(self, seconds):
+        self.seconds = seconds
+        self.armed = False
+
+    def __enter__(self):
+        import signal, threading
+        if self.seconds > 0 and threading.current_thread() is threading.main_thread() and hasattr(signal, "SIGALRM"):
+            def _raise(signum, frame):
+                raise _TimeUp()
+            self.old = signal.signal(signal.SIGALRM, _raise)
+            signal.alarm(self.seconds)
+            self.armed = True
+        return self
+
+    def __exit__(self, *a):
+        if self.armed:
+            import signal
+            signal.alarm(0)
+            signal.signal(signal.SIGALRM, self.old)
+        return False
 
 
 def fn_name(fn):
@@ -553,6 +588,20 @@ def require_all(cx, site, key, text, clauses, kill=True, detail=None):
         d["dominating_guards"] = sorted(show_lit(l) for l in cx.guard_lits(site))[:12]
     cx.check(not failed, key, text, site, **d)
     return not failed
+
+
+def spread_ranges(args):
+    """argument list with every `lo..hi` (core::ops::Range literal) written out as the two arguments it stands for -- a
+    private function that used to take (lo, hi) and now takes the range reads the same"""
+    out = []
+    for a in args:
+        if a[0] == "adt" and a[1].endswith("ops::range::Range::Range") or (a[0] == "adt" and a[1].endswith("Range::Range") and len(a[2]) == 2):
+            d = dict(a[2])
+            if "start" in d and "end" in d:
+                out += [d["start"], d["end"]]
+                continue
+        out.append(a)
+    return out
 
 
 def subst_phis(e, env, depth=0):
